@@ -165,16 +165,35 @@ func vhBuildProposal(h *vrt.H, k Keeper, ctx sdk.Context, b *vhBitcoin, l *vhLoc
 	case 2:
 		reqs = [][]byte{append(gasReq, h.Bytes("gasRevenue2", 40)...)}
 	}
+	// the payload's fields are the proposer's bytes: hash-like fields of the right length equal
+	// to the recorded value or not, or one of them a byte longer/shorter (every content)
+	beaconRoot := h.PickBytes(h.Bool("rightBeacon"), p.beacon, h.Bytes("otherBeacon", 32))
+	parentHash := h.PickBytes(h.Bool("childOfHead"), p.head.BlockHash, h.Bytes("otherParent", 32))
+	recipient := h.PickBytes(h.Bool("recipientIsProposer"), p.proposer, h.Bytes("otherRecipient", 20))
+	maxOdd := 1
+	if h.Thorough() {
+		maxOdd = 4
+	}
+	switch h.Choose("oddLengthField", 0, maxOdd) {
+	case 1:
+		beaconRoot = h.Bytes("longBeacon", 33)
+	case 2:
+		beaconRoot = h.Bytes("shortBeacon", 31)
+	case 3:
+		parentHash = h.Bytes("longParent", 33)
+	case 4:
+		recipient = h.Bytes("longRecipient", 21)
+	}
 	pl := &types.ExecutionPayload{
-		ParentHash:   h.PickBytes(h.Bool("childOfHead"), p.head.BlockHash, h.Bytes("otherParent", 32)),
-		FeeRecipient: h.PickBytes(h.Bool("recipientIsProposer"), p.proposer, h.Bytes("otherRecipient", 20)),
+		ParentHash:   parentHash,
+		FeeRecipient: recipient,
 		StateRoot:    make([]byte, 32), ReceiptsRoot: make([]byte, 32), LogsBloom: make([]byte, 256), PrevRandao: make([]byte, 32),
 		BlockNumber:  h.U64("number"),
 		Timestamp:    h.U64("timestamp"),
 		ExtraData:    extra,
 		BlockHash:    h.Bytes("blockHash", 32),
 		Transactions: txs,
-		BeaconRoot:   h.PickBytes(h.Bool("rightBeacon"), p.beacon, h.Bytes("otherBeacon", 32)),
+		BeaconRoot:   beaconRoot,
 		BlobGasUsed:  uint64(h.Choose("blobGasUsed", 0, 1)),
 		Requests:     reqs,
 	}
